@@ -342,7 +342,8 @@ def run(ctx):
     ctx.extra["excluded_features"] = dict(exclude)
     irround.warm_fragments()
     n = ctx.scale(640, 40000)
-    ctx.pmap(_worker, [(subseed(ctx.seed, PID, w), n // 16, exclude, not ctx.quick) for w in range(16)])
+    if not fuzz.only(ctx):
+        ctx.pmap(_worker, [(subseed(ctx.seed, PID, w), n // 16, exclude, not ctx.quick) for w in range(16)])
     if not ctx.quick:
         fuzz_layer(ctx, exclude)
 
@@ -352,10 +353,20 @@ def run(ctx):
 
 FUZZ_TARGET = "C15.reader"
 FUZZ_RUNS = 100000
+# tokens and whole productions of the text format (ppci/irutils/reader.py, the __str__ methods of ppci/ir.py); <= 60 bytes each
 FUZZ_DICT = [b"module", b"external", b"function", b"procedure", b"variable", b"global", b"local", b"bytes", b"aligned", b"at", b"blob<", b"phi",
              b"alloc", b"load", b"store", b"volatile", b"cast", b"undefined", b"call", b"literal", b"jmp", b"cjmp", b"return", b"exit", b"memcpy",
              b"i8", b"u8", b"i16", b"u16", b"i32", b"u32", b"i64", b"u64", b"f32", b"f64", b"ptr", b"rol", b"ror", b"inf", b"nan", b"-inf",
-             b" = ", b";\n", b": {\n", b"}\n", b" ? ", b"<<", b">>", b"==", b"!=", b"<=", b">=", b"1e+20", b"'00'", b"&"]  # fmt: skip
+             b" = ", b";\n", b": {\n", b"}\n", b" ? ", b"<<", b">>", b"==", b"!=", b"<=", b">=", b"1e+20", b"'00'", b"&",
+             b"module m;\n", b"external variable ev;\n", b"external function i32 ef(i32, ptr);\n", b"external procedure ep();\n",
+             b"global variable gv (4 bytes aligned at 4)\n", b"local variable lv (2 bytes aligned at 2) = '0011'\n", b" = '00', &gv, '11'\n",
+             b"global function i32 f(i32 a, ptr p) {\n", b"local procedure q() {\n", b"global procedure g(f64 x) {\n", b"  b0: {\n", b"  }\n", b"}\n",
+             b"    i32 c = 5;\n", b"    i32 s = a + c;\n", b"    i32 n = - a;\n", b"    i32 iv = ~ a;\n", b"    i8 t = cast a;\n",
+             b"    ptr m = alloc 4 bytes aligned at 4;\n", b"    ptr ad = &m;\n", b"    i32 l = load ad;\n", b"    i32 vl = volatile load p;\n",
+             b"    store a, p;\n", b"    volatile store a, p;\n", b"    i32 r = call f(a, p);\n", b"    call q();\n", b"    call ep();\n",
+             b"    blob<4:4> bl = literal '00112233';\n", b"    i32 u = undefined;\n", b"    i32 ph = phi b0: a, b1: c;\n", b"    memcpy(ad, p, 4);\n",
+             b"    jmp b1;\n", b"    cjmp a < c ? b1 : b2;\n", b"    return a;\n", b"    exit;\n", b"    f64 fl = 1.5;\n", b"    f64 fi = inf;\n",
+             b"    f32 fq = nan;\n", b"    f64 fe = 1e+20;\n", b"    i32 ro = a rol c;\n", b"    i32 le = load ev;\n", b"    ptr ga = &gv;\n"]  # fmt: skip
 
 
 def _open_ids():
@@ -406,6 +417,44 @@ def fuzz_reader(data):
     mo = re.search(r"raised (\w+)\(.*\) in (\S+)", msg, re.S)
     bucket = "%s@%s" % (mo.group(1), mo.group(2)) if mo else re.split(r"[:;]| at line", msg)[0][:60]
     raise fuzz.Failure("fuzzed IR text accepted by read_module as a well-formed module: " + msg + "\n" + text[:1500], bucket)
+
+
+def fuzz_reader_mutator(data, max_size, seed, byte_mutate):
+    """Mutator for the line-structured IR text (the printer puts one declaration / instruction on a line): 40% libFuzzer's
+    byte mutations, 60% line operations (insert a production of FUZZ_DICT, delete / duplicate / swap lines, replace one
+    token by a dictionary token or by another token of the text).  Deterministic in `seed` (given by libFuzzer)."""
+    import random
+
+    rnd = random.Random(seed)
+    if rnd.randrange(10) < 4:
+        return byte_mutate(data, max_size)
+    lines = data.split(b"\n")
+    if not data.strip():
+        lines = [b"module m;", b""]
+    prods = [d.rstrip(b"\n") for d in FUZZ_DICT if d.endswith(b"\n") and len(d) > 4]
+    words = [d for d in FUZZ_DICT if not d.endswith(b"\n") and d.strip() == d]
+    for _ in range(rnd.choice([1, 1, 1, 2, 3])):
+        op = rnd.randrange(6)
+        at = rnd.randrange(len(lines)) if lines else 0
+        if op <= 1 or not lines:
+            lines.insert(rnd.randrange(len(lines) + 1), rnd.choice(prods))
+        elif op == 2 and len(lines) > 1:
+            del lines[at]
+        elif op == 3:
+            lines.insert(rnd.randrange(len(lines) + 1), lines[at])
+        elif op == 4 and len(lines) > 1:
+            j = rnd.randrange(len(lines))
+            lines[at], lines[j] = lines[j], lines[at]
+        else:
+            toks = re.split(rb"(\w+)", lines[at])
+            idx = [i for i in range(1, len(toks), 2)]
+            if idx:
+                i = rnd.choice(idx)
+                pool = words if rnd.randrange(2) else [t for l in lines[:60] for t in re.findall(rb"\w+", l)] or words
+                toks[i] = rnd.choice(pool)
+                lines[at] = b"".join(toks)
+    out = b"\n".join(lines)
+    return out[:max_size]
 
 
 def fuzz_seeds(seed, exclude):
